@@ -133,6 +133,7 @@ type Cluster struct {
 	BatchesPerFetch int
 	// AbortedOrder permutes the aborted-transaction index of a fetch response (any order is legal)
 	AbortedOrder func([][2]int64) [][2]int64
+	BadRequests  []string // requests that did not decode
 	Fetched      []FetchEvent
 	Produced     []ProduceEvent
 	Requests     []string // kinds of all requests seen, in arrival order per decision
@@ -206,6 +207,10 @@ func (cl *Cluster) serve(conn *Conn) {
 		r, err := sarama.VerifDecodeRequest(conn.sv)
 		if err != nil {
 			cl.mu.Lock()
+			if _, bad := err.(sarama.PacketDecodingError); bad || strings.Contains(err.Error(), "insufficient data") || strings.Contains(err.Error(), "invalid") || strings.Contains(err.Error(), "CRC") || strings.Contains(err.Error(), "corrupt") {
+				// the client sent bytes that do not decode as a request (like a real broker, the connection is closed)
+				cl.BadRequests = append(cl.BadRequests, conn.Label+": "+err.Error())
+			}
 			conn.closed = true
 			conn.pending = nil
 			cl.mu.Unlock()
